@@ -18,6 +18,8 @@ type vSock struct {
 	stamps   []int64
 	in       chan knxnet.Service
 	failSend bool
+	failOnce bool // the next Send fails (a transient error), later ones succeed again
+	refused  int  // transmissions refused so far
 	failFrom int // fail every Send from this log position on (-1: never)
 	closed   int
 	network  string
@@ -31,7 +33,13 @@ func newVSock() *vSock {
 }
 
 func (s *vSock) Send(p knxnet.ServicePackable) error {
+	if s.failOnce {
+		s.failOnce = false
+		s.refused++
+		return errVSock
+	}
 	if s.failSend || (s.failFrom >= 0 && len(s.log) >= s.failFrom) {
+		s.refused++
 		return errVSock
 	}
 	s.log = append(s.log, p)
